@@ -10,6 +10,12 @@ threads against steel-rc built from /repo, with a shadow model:
   * race mode: a targeted schedule family - the owner drops its last owner-side reference (the merge
     compare-exchange loop) while another thread, holding a reference it cloned itself, clones and drops
     in a tight loop; per round: payload intact at every access, destroyed exactly once.
+  * mrace mode: the second targeted family - the owner runs the *explicit merge* of a queued object while
+    another thread drops the last reference it cloned itself (released by a go-flag, random short delay);
+    same per-round assertions.
+Every native history runs twice: plainly (real allocator) and with steel-rc's quarantine hook (`verif` feature,
+RCMIRI_QUARANTINE=1: a destroyed box is poisoned and kept, and increment / decrement / has_unique_ref / try_unwrap /
+explicit_merge / the owner-field stores / destroy report by name when they are handed a destroyed box).
 Oracles: the driver's own assertions natively (millions of operations, OS scheduling), and **Miri**
 (undefined behaviour, use-after-free and data-race detection, many scheduler seeds) on short histories."""
 import json
@@ -37,6 +43,9 @@ def build_native():
 
 
 def classify(line):
+    m = re.match(r"destroyed box handed to (.*?) \[\d+ time", line)
+    if m:
+        return "a destroyed box is handed to %s" % m.group(1)
     if "never destroyed" in line:
         return "a payload is never destroyed although every reference was dropped (leak)"
     if "granted exclusive access" in line or "mutated payload" in line or "moved payload" in line:
@@ -48,10 +57,11 @@ def classify(line):
     return line[:80]
 
 
-def run_native(binp, seeds, hist, ops, mode):
+def run_native(binp, seeds, hist, ops, mode, quarantine=False):
     procs = []
+    env = dict(os.environ, RCMIRI_QUARANTINE="1" if quarantine else "0")
     for s in seeds:
-        procs.append((s, subprocess.Popen([binp, str(s), str(hist), str(ops), mode], stdout=subprocess.PIPE, stderr=subprocess.PIPE, text=True)))
+        procs.append((s, subprocess.Popen([binp, str(s), str(hist), str(ops), mode], stdout=subprocess.PIPE, stderr=subprocess.PIPE, text=True, env=env)))
     out = []
     for s, p in procs:
         try:
@@ -71,22 +81,35 @@ def main(tier):
     rep.coverage["rule"] = (
         "seeded histories over {new, clone, drop, move to another thread, get_mut, make_mut, try_unwrap, strong_count, "
         "explicit merge, thread exit} on <= 3 threads and a growing set of objects; sequential mode with an exact shadow "
-        "count, concurrent mode with schedule-independent assertions, race mode (owner's last drop against a foreign clone/drop loop); natively (OS schedules) and under Miri (many scheduler "
+        "count, concurrent mode with schedule-independent assertions, race mode (owner's last drop against a foreign clone/drop loop), mrace mode (owner's explicit merge of a queued object against a foreign last drop); natively (OS schedules) and under Miri (many scheduler "
         "seeds); distinct by (seed, mode); non-trivial = the history produced objects that crossed threads")
     base = core.seed() * 1000
     total_ops = 0
     objects = 0
-    for mode in ("seq", "conc", "race"):
-        # race: rounds of "owner drops its last owner-side reference while another thread clones/drops"
-        res = run_native(binp, [base + i for i in range(nseeds)], hist if mode != "race" else 20, ops if mode != "race" else (100 if tier == "quick" else 3000), mode)
-        for s, rc, so, se in res:
+    race_rounds = 1000 if tier == "quick" else 3000
+    for mode in ("seq", "conc", "race", "mrace"):
+        # race / mrace: 20 helper threads x race_rounds rounds of "owner's last drop / owner's explicit merge while
+        # another thread drops"; the window is a few instructions wide, so the number of rounds is what buys detection
+        h_, o_ = (20, race_rounds) if mode in ("race", "mrace") else (hist, ops)
+        seeds = [base + i for i in range(nseeds)]
+        # every history twice: with steel-rc's quarantine hook (a destroyed box is kept and poisoned; every entry
+        # point that is handed one reports its name - deterministic, names the site) and plainly (the real
+        # allocator; the oracle is the driver's assertions and the allocator's own consistency checks)
+        res = [(True,) + r for r in run_native(binp, seeds, h_, o_, mode, quarantine=True)]
+        res += [(False,) + r for r in run_native(binp, seeds, h_, o_, mode)]
+        sites_of = {}
+        for quarantine, s, rc, so, se in res:
             rep.count()
             m = re.search(r"RCMIRI seed=\d+ histories=\d+ ops=(\d+) objects=(\d+) violations=(\d+)", so)
-            replay = {"argv": [str(s), str(hist), str(ops), mode]}
+            replay = {"argv": [str(s), str(h_), str(o_), mode], "env": {"RCMIRI_QUARANTINE": "1" if quarantine else "0"}}
+            if quarantine:
+                sites_of[s] = sorted(set(re.findall(r"RCVIOLATION destroyed box handed to (.*?) \[", so)))
+                rep.add("quarantine_runs", 1)
+                rep.add("destroyed_box_reports", len(sites_of[s]))
             if m:
                 total_ops += int(m.group(1))
                 objects += int(m.group(2))
-                rep.nontrivial((s, mode))
+                rep.nontrivial((s, mode, quarantine))
             kinds = {}
             for line in so.splitlines():
                 if line.startswith("RCVIOLATION "):
@@ -101,6 +124,10 @@ def main(tier):
                                   "mode=%s seed=%d stderr=%s" % (mode, s, se[-300:]), replay)
                 elif se == "timeout":
                     rep.inconclusive_note("native run timed out (seed %d, %s)" % (s, mode))
+                elif mode == "seq" and not quarantine and sites_of.get(s):
+                    # a sequential history is deterministic: the quarantine run of the same history has already
+                    # named (and reported, above) the destroyed box this run trips over in the real allocator
+                    rep.add("plain_seq_crashes_attributed_by_quarantine_run", 1)
                 else:
                     rep.violation("C05 driver run dies with exit status %s (memory corruption?) in %s mode" % (rc, mode), "mode=%s seed=%d stderr=%s" % (mode, s, se[-300:]), replay)
     rep.note("native_operations", total_ops)
@@ -109,9 +136,9 @@ def main(tier):
     env = dict(os.environ, CARGO_NET_OFFLINE="true")
     env["MIRIFLAGS"] = "-Zmiri-many-seeds=0..%d -Zmiri-disable-isolation" % miri_seeds
     t0 = time.time()
-    for mode in ("seq", "conc", "race"):
+    for mode in ("seq", "conc", "race", "mrace"):
         cmd = ["cargo", "+nightly", "miri", "run", "--offline", "--target-dir", os.path.join(core.BUILD, "rcmiri-miri"), "--",
-               str(core.seed()), str(miri_hist), str(miri_ops if mode != "race" else 6), mode, "tolerate-leaks"]
+               str(core.seed()), str(miri_hist), str(miri_ops if mode not in ("race", "mrace") else 6), mode, "tolerate-leaks"]
         try:
             p = subprocess.run(cmd, cwd=CRATE, env=env, stdout=subprocess.PIPE, stderr=subprocess.PIPE, text=True, timeout=3000)
         except subprocess.TimeoutExpired:
@@ -157,7 +184,7 @@ def replay(path):
     d = json.load(open(path))["replay"]
     if "argv" in d:
         binp = build_native()
-        p = subprocess.run([binp] + d["argv"], stdout=subprocess.PIPE, stderr=subprocess.PIPE, text=True)
+        p = subprocess.run([binp] + d["argv"], stdout=subprocess.PIPE, stderr=subprocess.PIPE, text=True, env=dict(os.environ, **d.get("env", {})))
         print(p.stdout[-2000:], p.stderr[-1000:])
         if p.returncode != 0:
             print("VIOLATION property=C05 replay=%s" % path)
